@@ -130,7 +130,7 @@ fn parsed_ops(ty: &str, b: &[u8]) -> Option<String> {
                     $f(&x);
                     "OK".to_string()
                 }
-                Err(_) => "ERR".to_string(),
+                Err(e) => crate::err_shown(&e),
             }
         };
     }
@@ -281,15 +281,15 @@ pub fn run(op: &str, args: &[&str]) -> Option<String> {
             Some(match args[0] {
                 "hash" => match Hash::from_hex(&t) {
                     Ok(h) => format!("OK {}", show_hex(&h.0)),
-                    Err(_) => "ERR".into(),
+                    Err(e) => crate::err_shown(&e),
                 },
                 "hash8" => match Hash8::from_hex(&t) {
                     Ok(h) => format!("OK {}", show_hex(&h.0)),
-                    Err(_) => "ERR".into(),
+                    Err(e) => crate::err_shown(&e),
                 },
                 "pid" => match PaymentId::from_hex(&t) {
                     Ok(h) => format!("OK {}", show_hex(&h.0)),
-                    Err(_) => "ERR".into(),
+                    Err(e) => crate::err_shown(&e),
                 },
                 _ => return None,
             })
@@ -301,7 +301,7 @@ pub fn run(op: &str, args: &[&str]) -> Option<String> {
             let s = String::from_utf8(unhex(args[0])?).ok()?; // a &str is valid UTF-8 by construction
             Some(match Denomination::from_str(&s) {
                 Ok(d) => format!("OK {}", d),
-                Err(_) => "ERR".into(),
+                Err(e) => crate::err_shown(&e),
             })
         }
         _ => None,
